@@ -10,7 +10,9 @@ const MASK: u32 = N24 - 1;
 fn lfo_at(acc: u32) -> Lfo {
     let last: u32 = kani::any();
     kani::assume(last <= MASK);
-    Lfo { phase_accumulator: PhaseAccumulator::verif_from_parts(1000.0, acc, last, 0, false) }
+    let mut l = Lfo::new(1000.0);
+    l.phase_accumulator = PhaseAccumulator::verif_from_parts(1000.0, acc, last, 0, false);
+    l
 }
 
 fn any_acc() -> u32 {
@@ -78,7 +80,8 @@ fn c11_lfo_ops_frame() {
     kani::assume(inc <= N24);
     let fs: f32 = kani::any();
     kani::assume(fs >= 100.0 && fs <= 192_000.0);
-    let mut lfo = Lfo { phase_accumulator: PhaseAccumulator::verif_from_parts(fs, acc, acc, inc, false) };
+    let mut lfo = Lfo::new(fs);
+    lfo.phase_accumulator = PhaseAccumulator::verif_from_parts(fs, acc, acc, inc, false);
     let f: f32 = kani::any();
     kani::assume(f >= 0.0 && f <= fs);
     let mut a = lfo;
@@ -116,7 +119,8 @@ fn c12_triangle_exact_reference_lipschitz() {
     let acc = any_acc();
     let inc: u32 = kani::any();
     kani::assume(inc <= N24);
-    let mut lfo = Lfo { phase_accumulator: PhaseAccumulator::verif_from_parts(1000.0, acc, acc, inc, false) };
+    let mut lfo = Lfo::new(1000.0);
+    lfo.phase_accumulator = PhaseAccumulator::verif_from_parts(1000.0, acc, acc, inc, false);
     let a = lfo.get(Waveshape::Triangle) as f64;
     lfo.tick();
     let acc2 = lfo.phase_accumulator.verif_acc();
@@ -139,7 +143,8 @@ fn c12_triangle_any_increment() {
     let acc = any_acc();
     let inc: u32 = kani::any();
     kani::assume(inc <= N24);
-    let mut lfo = Lfo { phase_accumulator: PhaseAccumulator::verif_from_parts(1000.0, acc, acc, inc, false) };
+    let mut lfo = Lfo::new(1000.0);
+    lfo.phase_accumulator = PhaseAccumulator::verif_from_parts(1000.0, acc, acc, inc, false);
     let a = lfo.get(Waveshape::Triangle) as f64;
     lfo.tick();
     let b = lfo.get(Waveshape::Triangle) as f64;
@@ -242,4 +247,23 @@ fn c17_lfo_public_ops_no_panic() {
         && (q == 1.0 || q == -1.0), "C17/lfo/outputs-in-[-1,1]");
     vcover!(f == fs, "witness: f == fs");
     vcover!(f > 0.0 && f < 1.0e-30, "witness: tiny frequency");
+}
+
+// @harness prop=C11 tier=quick timeout=900
+// @about a frequency change takes effect from the next tick, however small: public API, Lfo::new(1000 Hz), set_frequency(f1) then set_frequency(f2) with f1, f2 on the grid k/4096 Hz (k < 2^16: 0 .. 16 Hz, steps of 0.00024 Hz), then one tick from phase 0: the phase advanced by an increment inside the accuracy window of f2 (inc*fs against 2^24*f2, exact in f64) -- the second request is never dropped or merged with the first
+#[kani::proof]
+fn c11_lfo_frequency_change_takes_effect() {
+    let k1: u16 = kani::any();
+    let k2: u16 = kani::any();
+    let (f1, f2) = (k1 as f32 / 4096.0, k2 as f32 / 4096.0);
+    let mut l = Lfo::new(1000.0);
+    l.set_frequency(f1);
+    l.set_frequency(f2);
+    l.tick();
+    let inc = l.phase_accumulator.verif_acc(); // phase 0 + one increment (f2 <= 16 Hz: no wrap)
+    let want = 16777216.0_f64 * f2 as f64;
+    vassert!(inc as f64 * 1000.0 <= want * (1.0 + 1.1920928955078125e-7), "C11/set_frequency/change-takes-effect:not-too-fast");
+    vassert!((inc as f64 + 1.0) * 1000.0 >= want * (1.0 - 1.1920928955078125e-7), "C11/set_frequency/change-takes-effect:not-too-slow");
+    vcover!(k1 != k2 && (k1 as i32 - k2 as i32).abs() <= 2, "witness: change below 0.001 Hz");
+    vcover!(k2 == 0 && k1 > 0, "witness: change to 0 Hz");
 }
